@@ -635,11 +635,13 @@ func evalAggregateFunction(ctx context.Context, scope *ReferenceScope, expr pars
 		}
 
 		listExpr := expr.Args[0]
-		if _, ok := listExpr.(parser.AllColumns); ok {
+		_, allColumns := listExpr.(parser.AllColumns)
+		if allColumns {
 			listExpr = parser.NewIntegerValue(1)
 		}
 
-		if uname == "COUNT" {
+		// COUNT of a constant is the number of records, unless the constant is to be counted DISTINCT (once).
+		if uname == "COUNT" && (allColumns || !expr.IsDistinct()) {
 			if pt, ok := listExpr.(parser.PrimitiveType); ok {
 				v := pt.Value
 				if !value.IsNull(v) && !value.IsUnknown(v) && scope.Records[0].IsInRange() {
